@@ -17,5 +17,8 @@ CHECK = dict(
             dict(name="recycle", run="^TestVerifC08Recycle$", quick=6000, thorough=400000,
                  shards_thorough=4, env={"GODEBUG": "randseednop=0"}),
         ]),
+        dict(name="stack", dir="internal/dnssvc", src="C08/stack", runs=[
+            dict(name="udp-limit", run="^TestVerifC08Stack$", quick=400, thorough=20000, shards_thorough=4),
+        ]),
     ],
 )
